@@ -21,3 +21,33 @@ Proof.
   destruct (reachable_from_empty bits imx pmx imm U ops Hi Hp HU Hok) as (HR & _ & _ & Himm).
   apply (iterate_after_flush bits U HU imm _ _ order HR Himm Hcov).
 Qed.
+
+(* C08 over histories: after ANY history (keys inserted, re-pointed by overwrites, removed, in any order, with flushes,
+   collectors and reopens in between) the index resolves every PRESENT key to a location holding that key's latest
+   value, answers an ABSENT key with nothing or with the location of some OTHER key, and every record list is sorted,
+   prefix-free, with each stored prefix a non-empty prefix of its own full key. *)
+Theorem index_resolves_reachable bits imx pmx imm U ops :
+  bits < 32 -> 0 < imx -> 0 < pmx -> key_universe U ->
+  ops_ok_all U (init bits imx pmx imm) ops ->
+  let s := run_state (init bits imx pmx imm) ops in
+  let m := spec_state imm sempty ops in
+  (forall ik k v, m ik = Some (k, v) ->
+     exists e l, recs s (bkt bits ik) = Some l /\ In e l /\ eget (strp bits ik) l None = Some e /\
+                 idx_get (sidx s) ik = Some (eblk e) /\ pget s (eblk e) = PFound k v) /\
+  (forall ik, m ik = None ->
+     idx_get (sidx s) ik = None \/
+     exists b k' v' ik', idx_get (sidx s) ik = Some b /\ pget s b = PFound k' v' /\ mh_digest k' = Some ik' /\ ik' <> ik) /\
+  (forall b l, recs s b = Some l -> ordered l) /\
+  (forall b l e, recs s b = Some l -> In e l ->
+     epfx e <> [] /\ exists k v ik, sol s (eblk e) k v /\ mh_digest k = Some ik /\ bkt bits ik = b /\ Prefix (epfx e) (strp bits ik)).
+Proof.
+  intros Hb Hi Hp HUk Hok. cbv zeta.
+  assert (HU : unrelated bits U) by (apply key_universe_unrelated; auto).
+  destruct (reachable_from_empty bits imx pmx imm U ops Hi Hp HU Hok) as (HR & _ & _ & _).
+  split.
+  { intros ik k v Hm. destruct (get_present bits U _ _ ik k v HR Hm) as (e & l & A & B & C & D & E & _). exists e, l. repeat split; assumption. }
+  split; [intros ik Hm; apply (get_absent bits U _ _ ik HR Hm)|].
+  split; [intros b l Hl; apply (r_ord _ _ _ _ HR b l Hl)|].
+  intros b l e Hl He. destruct (r_ent _ _ _ _ HR b l e Hl He) as (Hne & k & v & ik & Hs & Hd & Hbk & Hp' & _).
+  split; [exact Hne|]. exists k, v, ik. repeat split; assumption.
+Qed.
